@@ -371,7 +371,9 @@ def run_sort(sd):
             if strict == "low":
                 ok = all(n in avail for n in set(names))
             elif strict == "medium":
-                ok = all(ca[n] >= c for n, c in cd.items())
+                # documented: the requested tensors the requested number of times, other
+                # tensors may be present in addition
+                ok = all(ca[n] == c for n, c in cd.items())
             else:
                 amps = {n for n in avail if (n.startswith("t") or n in ("X", "Y")) and n not in names}
                 ca2 = Counter([n for n in avail if n not in amps])
